@@ -16,6 +16,7 @@ func genC05(tier string, rng *rand.Rand, shard, nshards int, emit emitter) {
 	if tier == "thorough" {
 		count = 600000
 	}
+	genXf(rng, "r", count/4, shard, nshards, emit)
 	for i := 0; i < count; i++ {
 		if !mine(i, shard, nshards) {
 			continue
@@ -77,11 +78,35 @@ func genFieldList(rng *rand.Rand, wantCoils bool, allowInvalid bool) []genField 
 	bases := []int{0, 0, 1, 100, 65535 - limit, 65535 - 3, 65535, 32768 - limit/2, rng.Intn(65536), pick(rng, boundaries16())}
 	base := bases[rng.Intn(len(bases))]
 	wrapMode := rng.Intn(6) == 0
+	// targets that differ although a careless grouping key makes them equal: the digits at the end of the address and
+	// the unit id concatenate to the same string ("h:50"+"21" / "h:502"+"1"), or the addresses differ only in case
+	var twins [][2]interface{}
+	if rng.Intn(5) == 0 {
+		w := fmt.Sprintf("%d", 1000+rng.Intn(9000))
+		for cut := 1; cut < len(w); cut++ {
+			u := 0
+			fmt.Sscanf(w[cut:], "%d", &u)
+			if (w[cut] == '0' && cut != len(w)-1) || u > 255 {
+				continue
+			}
+			twins = append(twins, [2]interface{}{"h:" + w[:cut], u})
+		}
+		if rng.Intn(3) == 0 {
+			twins = append(twins, [2]interface{}{"H:5", 1}, [2]interface{}{"h:5", 1})
+		}
+		if n < 4 {
+			n = 4 + rng.Intn(6)
+		}
+	}
 	fs := []genField{}
 	for i := 0; i < n; i++ {
 		f := genField{name: fmt.Sprintf("f%d", i)}
 		f.server = servers[rng.Intn(nsrv)]
 		f.unit = []int{1, 2, 0, 255}[rng.Intn(nunit)]
+		if len(twins) >= 2 {
+			t := twins[rng.Intn(len(twins))]
+			f.server, f.unit = t[0].(string), t[1].(int)
+		}
 		// kind
 		other := rng.Intn(5) == 0
 		coil := wantCoils != other
@@ -153,6 +178,15 @@ func genFieldList(rng *rand.Rand, wantCoils bool, allowInvalid bool) []genField 
 			}
 		}
 		fs = append(fs, f)
+	}
+	if rng.Intn(5) == 0 {
+		// point names as a plant uses them: unique on one device, the same on every device ("temperature" on each boiler)
+		cnt := map[string]int{}
+		for i := range fs {
+			k := fmt.Sprintf("%s/%d", fs[i].server, fs[i].unit)
+			fs[i].name = fmt.Sprintf("p%d", cnt[k])
+			cnt[k]++
+		}
 	}
 	return fs
 }
